@@ -52,10 +52,12 @@ func lkeySeq(ks []LKey) iter.Seq2[[]byte, statedb.PrefixLen] {
 func (o *Obj) TableHeader() []string { return []string{"ID", "Val"} }
 func (o *Obj) TableRow() []string    { return []string{hx.Hex(o.ID), strconv.Itoa(o.Val)} }
 
+// keySet builds the key set the way applications do for string-valued fields: index.String, which yields a NIL key
+// for the empty string (D17: a nil first key used to turn the whole set into the empty set)
 func keySet(ks [][]byte) index.KeySet {
 	keys := make([]index.Key, len(ks))
 	for i, k := range ks {
-		keys[i] = index.Key(k)
+		keys[i] = index.String(string(k))
 	}
 	return index.NewKeySet(keys...)
 }
